@@ -154,6 +154,9 @@ pub enum Kind {
     GateBody,
     /// like Gate, but the request announces `Expect: 100-continue` and sends a small body at once
     GateExpect,
+    /// like GateBody, but the 20 kB body arrives in two writes 30 ms apart (the handler has started
+    /// by then): hyper stops reading a body nobody consumes, so part of it is still unread
+    GateBodySplit,
     /// gate handler that drops its RequestContext before waiting
     GateDrop,
 }
@@ -229,7 +232,7 @@ impl WorldCfg {
         WorldCfg {
             mode: if v["mode"] == json!("Detached") { HandlerTaskMode::Detached } else { HandlerTaskMode::CancelOnDisconnect },
             rt: if v["runtime"].as_str().unwrap_or("").starts_with("Current") { RtKind::CurrentThread } else { RtKind::MultiThread(2) },
-            kinds: v["clients"].as_array().unwrap().iter().map(|k| match k.as_str().unwrap() { "Panic" => Kind::Panic, "Big" => Kind::Big, "GateDrop" => Kind::GateDrop, "GateBody" => Kind::GateBody, "GateExpect" => Kind::GateExpect, _ => Kind::Gate }).collect(),
+            kinds: v["clients"].as_array().unwrap().iter().map(|k| match k.as_str().unwrap() { "Panic" => Kind::Panic, "Big" => Kind::Big, "GateDrop" => Kind::GateDrop, "GateBody" => Kind::GateBody, "GateExpect" => Kind::GateExpect, "GateBodySplit" => Kind::GateBodySplit, _ => Kind::Gate }).collect(),
             with_shutdown: v["with_shutdown"].as_bool().unwrap_or(false),
             with_half: v["with_half"].as_bool().unwrap_or(true),
         }
@@ -325,7 +328,7 @@ fn req_bytes(kind: Kind, id: &str) -> Vec<u8> {
         Kind::Panic => "panic",
         Kind::Big => "big",
         Kind::GateDrop => "gated",
-        Kind::GateBody => {
+        Kind::GateBody | Kind::GateBodySplit => {
             let mut v = format!("PUT /gatep/{id} HTTP/1.1\r\nhost: h\r\nx-marker: {id}\r\ncontent-length: 20000\r\n\r\n").into_bytes();
             v.extend(std::iter::repeat(b'b').take(20000));
             return v;
@@ -335,6 +338,29 @@ fn req_bytes(kind: Kind, id: &str) -> Vec<u8> {
         }
     };
     format!("GET /{p}/{id} HTTP/1.1\r\nhost: h\r\nx-marker: {id}\r\n\r\n").into_bytes()
+}
+
+/// Where SendHalf cuts the request: inside the head, so that no handler can have started (for the
+/// body-carrying kinds the middle of the byte string would lie behind the complete head).
+fn half_point(kind: Kind, b: &[u8]) -> usize {
+    match kind {
+        Kind::GateBody | Kind::GateExpect | Kind::GateBodySplit => 20.min(b.len()),
+        _ => b.len() / 2,
+    }
+}
+
+/// Writes the (rest of the) request; GateBodySplit pauses in the middle of the body.
+fn send_rest(c: &mut Conn, kind: Kind, b: &[u8], from: usize) {
+    if kind == Kind::GateBodySplit {
+        let cut = b.len() - 10_000;
+        if from < cut {
+            let _ = c.send(&b[from..cut]);
+            std::thread::sleep(Duration::from_millis(30));
+            let _ = c.send(&b[cut..]);
+            return;
+        }
+    }
+    let _ = c.send(&b[from..]);
 }
 
 /// Does this process still own a listening TCP socket on `port`?
@@ -453,15 +479,15 @@ pub fn run_history(cfg: &WorldCfg, events: &[Ev], shutdown_window: Duration) -> 
             Ev::SendHalf(i) => {
                 let b = req_bytes(cfg.kinds[i], &ids[i]);
                 if let Some(c) = conns[i].as_mut() {
-                    let _ = c.send(&b[..b.len() / 2]);
+                    let _ = c.send(&b[..half_point(cfg.kinds[i], &b)]);
                 }
                 std::thread::sleep(Duration::from_millis(2));
             }
             Ev::Send(i) => {
                 let b = req_bytes(cfg.kinds[i], &ids[i]);
-                let from = if script.clients[i].phase == Phase::HalfSent { b.len() / 2 } else { 0 };
+                let from = if script.clients[i].phase == Phase::HalfSent { half_point(cfg.kinds[i], &b) } else { 0 };
                 if let Some(c) = conns[i].as_mut() {
-                    let _ = c.send(&b[from..]);
+                    send_rest(c, cfg.kinds[i], &b, from);
                 }
                 if !world.board.wait("entered", &ids[i], 1, POS) {
                     fail!("handler_not_entered", step, json!("handler entered after a complete request"), json!("not entered within 10 s"));
@@ -509,7 +535,7 @@ pub fn run_history(cfg: &WorldCfg, events: &[Ev], shutdown_window: Duration) -> 
                         o => json!(format!("{o:?}")),
                     };
                     match kind {
-                        Kind::Gate | Kind::GateDrop | Kind::GateBody | Kind::GateExpect => {
+                        Kind::Gate | Kind::GateDrop | Kind::GateBody | Kind::GateExpect | Kind::GateBodySplit => {
                             let ok = matches!(&r, ReadOutcome::Resp(r) if r.status == 200 && r.json().map(|j| j["id"] == json!(ids[i])).unwrap_or(false)
                                 && r.header_str("x-request-id") == r.json().and_then(|j| j["request_id"].as_str().map(|s| s.to_string())));
                             if !ok {
@@ -548,7 +574,10 @@ pub fn run_history(cfg: &WorldCfg, events: &[Ev], shutdown_window: Duration) -> 
                     if !detached {
                         must_be_dropped.insert(i);
                         if c.kind != Kind::Panic {
-                            if !world.board.wait("dropped", &ids[i], 1, POS) {
+                            // (in the split-body world the cancellation is known not to come - known finding L -
+                            // and every miss would cost the full 10 s three times over: wait 2 s there)
+                            let cancel_wait = if c.kind == Kind::GateBodySplit { Duration::from_secs(2) } else { POS };
+                            if !world.board.wait("dropped", &ids[i], 1, cancel_wait) {
                                 fail!("handler_not_cancelled_on_disconnect", step, json!("handler future dropped after its client disconnected"), json!({"dropped": 0, "completed": world.board.count("completed", &ids[i])}));
                             }
                         } else if srv.drain.wait_for(log_from, SYNC, |e| e.msg.starts_with("request handling cancelled")).is_none() {
@@ -734,6 +763,7 @@ pub fn run_history_nosettle(cfg: &WorldCfg, events: &[Ev]) -> Outcome {
     let ids: Vec<String> = (0..n).map(|i| format!("c{i}")).collect();
     let mut conns: Vec<Option<Conn>> = (0..n).map(|_| None).collect();
     let mut sent = vec![false; n];
+    let mut half = vec![false; n];
     let mut close_rx = None;
     macro_rules! fail {
         ($kind:expr, $exp:expr, $obs:expr) => {
@@ -746,13 +776,15 @@ pub fn run_history_nosettle(cfg: &WorldCfg, events: &[Ev]) -> Outcome {
             Ev::SendHalf(i) => {
                 let b = req_bytes(cfg.kinds[i], &ids[i]);
                 if let Some(c) = conns[i].as_mut() {
-                    let _ = c.send(&b[..b.len() / 2]);
+                    let _ = c.send(&b[..half_point(cfg.kinds[i], &b)]);
+                    half[i] = true;
                 }
             }
             Ev::Send(i) => {
                 let b = req_bytes(cfg.kinds[i], &ids[i]);
+                let from = if half[i] { half_point(cfg.kinds[i], &b) } else { 0 };
                 if let Some(c) = conns[i].as_mut() {
-                    let _ = c.send(&b);
+                    send_rest(c, cfg.kinds[i], &b, from);
                     sent[i] = true;
                 }
             }
@@ -840,7 +872,10 @@ pub struct Explore {
 }
 
 fn history_sig(cfg: &WorldCfg, f: &Failure) -> Value {
-    json!({"kind": f.kind, "mode": format!("{:?}", cfg.mode)})
+    let mut kinds: Vec<String> = cfg.kinds.iter().map(|k| format!("{k:?}")).collect();
+    kinds.sort();
+    kinds.dedup();
+    json!({"kind": f.kind, "mode": format!("{:?}", cfg.mode), "clients": kinds.join("+")})
 }
 
 pub fn report_failures(ctx: &Ctx, cfg: &WorldCfg, events: &[Ev], o: &Outcome, shutdown_window: Duration) {
